@@ -124,6 +124,30 @@ def zoo_flat(sa, orm, reg, *, deferred_z=False):
     return {"A": A, "B": B}
 
 
+def zoo_flat_inh(sa, orm, reg):
+    """Joined-table inheritance for C46: base A(id, kind, x) in table ``a``, subclass AS with
+    y, z in table ``a_sub``.  A SELECT against the base class returns AS instances whose row
+    lacks the sub-table columns."""
+    A = type("A", (object,), {
+        "__tablename__": "a",
+        "id": sa.Column(sa.Integer, primary_key=True),
+        "kind": sa.Column(sa.String, nullable=False),
+        "x": sa.Column(sa.String),
+        "__mapper_args__": {"polymorphic_on": "kind", "polymorphic_identity": "base"},
+        "__repr__": lambda self: "<A@%x>" % id(self),
+    })
+    reg.mapped(A)
+    AS = type("AS", (A,), {
+        "__tablename__": "a_sub",
+        "id": sa.Column(sa.ForeignKey("a.id"), primary_key=True),
+        "y": sa.Column(sa.String),
+        "z": sa.Column(sa.String),
+        "__mapper_args__": {"polymorphic_identity": "sub"},
+    })
+    reg.mapped(AS)
+    return {"A": A, "AS": AS}
+
+
 # --------------------------------------------------------------------------
 # rig
 # --------------------------------------------------------------------------
